@@ -146,7 +146,14 @@ func H_C16_variants() {
 	w = &vWriter{}
 	vAssert(m.XmlIndentWriter(w, prefix, indentStr) == nil && vBytesEq(w.buf, xi), "variants: XmlIndentWriter writes exactly the bytes XmlIndent returns")
 	safe := vChoose(2) == 1
+	// the JSON forms also see the characters the safe flag is about
+	m["r"].(map[string]interface{})["h"] = vNondetString(1, 1, "<&x")
 	j, _ := m.Json(safe)
+	if safe {
+		jd, _ := m.Json()
+		w = &vWriter{}
+		vAssert(m.JsonWriter(w) == nil && vBytesEq(w.buf, jd), "variants: JsonWriter without the flag writes the bytes Json without the flag returns")
+	}
 	ji, _ := m.JsonIndent(prefix, indentStr, safe)
 	w = &vWriter{}
 	vAssert(m.JsonWriter(w, safe) == nil && vBytesEq(w.buf, j), "variants: JsonWriter writes exactly the bytes Json returns")
